@@ -29,8 +29,10 @@ class Monitor:
         self.keys = [tuple(k) for k in cfg["keys"]]
         self.values = cfg["values"]
         self.node_type = cfg.get("node_type", 17)
+        # the library version a node reports for itself is independent of the gateway's version
+        self.node_version = cfg.get("node_version", v)
         for n in self.nodes:
-            s.line(f"{n};255;0;0;{self.node_type};{v}")
+            s.line(f"{n};255;0;0;{self.node_type};{self.node_version}")
             for c in self.children:
                 s.line(f"{n};{c};0;0;3;")
         self.sleeping = {n: False for n in self.nodes}
@@ -64,6 +66,9 @@ class Monitor:
         # the node reports exactly a value the application also sends, and echoes one with the ack flag set
         evs.append(["line", f"{n0};{c0};1;0;2;{self.values[0]}"])
         evs.append(["line", f"{n0};{c0};1;1;2;{self.values[-1]}"])
+        # the node asks for a value: for exactly the key a command is parked under, and for another one
+        evs.append(["req", n0, c0, 2])
+        evs.append(["req", n0, self.children[-1], 3])
         evs.append(["line", f"{n0};255;3;0;0;0"])  # battery report
         if v == "2.2":
             evs.append(["line", f"{n0};255;3;0;22;0"])  # heartbeat response is not a wake in 2.2
@@ -134,12 +139,26 @@ class Monitor:
                 self.stale.discard(k)
         elif kind == "present":
             n = ev[1]
-            out = s.line(f"{n};255;0;0;{self.node_type};{v}")
+            out = s.line(f"{n};255;0;0;{self.node_type};{self.node_version}")
             self.last_desc = out.describe()
             self.sleeping[n] = False
             got = [w for w in out.writes if ";3;0;19;" not in w]
             if got:
                 bad("other-step-wrote", f"node presentation wrote {got}")
+        elif kind == "req":
+            n, c, t = ev[1:]
+            node = s.gateway.nodes.get(n)
+            child = node.children.get(c) if node is not None else None
+            stored = child.values.get(t) if child is not None else None
+            allowed = [R.enc(n, c, 1, 0, t, stored)] if stored is not None else []
+            out = s.line(f"{n};{c};2;0;{t};")
+            self.last_desc = out.describe()
+            got = [w for w in out.writes if ";3;0;19;" not in w]
+            if (n, c, t) in self.buffer:
+                self.nontrivial = True
+            if got != allowed:
+                parked = self.buffer.get((n, c, t))
+                bad("req-released-parked" if parked in got else "other-step-wrote", f"value request {n};{c};2;0;{t}; (stored value {stored!r}, parked command {parked!r}) wrote {got}, expected {allowed}")
         else:
             out = s.line(ev[1])
             self.last_desc = out.describe()
@@ -184,6 +203,10 @@ def configs(ctx: core.Ctx) -> list:
         cfgs.append({"version": "2.1" if v == "2.2" else v, "node_type": 18, "keys": [[1, 3, 2], [2, 3, 2]], "values": ["a", "b"], "sleep": [True, True]})
         # ids one of which is a decimal prefix of the other (25 / 254), child ids likewise (2 / 25)
         cfgs.append({"version": v, "nodes": [25, 254], "children": [2, 25], "keys": [[25, 2, 2], [254, 25, 2]] if ctx.quick else [[25, 2, 2], [254, 25, 2], [254, 2, 25]], "values": ["a", "b"], "sleep": [True, True]})
+    # nodes whose own library version differs from the gateway's (newer, older, not a version at all)
+    for v, nvs in (("2.1", ["2.3.2", "1.4"]), ("2.2", ["2.0"])) if ctx.quick else (("2.0", ["2.2", "2.3.2", "1.4", ""]), ("2.1", ["2.2.0", "2.3.2", "1.5", "junk"]), ("2.2", ["2.0", "2.1.1", "1.4"])):
+        for nv in nvs:
+            cfgs.append({"version": v, "node_version": nv, "keys": [[1, 3, 2], [2, 3, 2]], "values": ["a", "b"], "sleep": [True, True]})
     return cfgs
 
 
